@@ -490,5 +490,11 @@ package oidc
 
 // the discovery document of a provider: fetched (and cached) — assumed contract: HTTP and JSON decoding
 //@ func GetWellKnownConfig
-//@   abstractbody
 //@   #allocates
+//@   requires client_nonnil: client != nil
+//@   requires unlocked: !held(wellKnownConfigsMu)
+//@   assumes  cache_ok: deref(wellKnownConfigs) != nil && forall u string :: mapHas(deref(wellKnownConfigs), u) ==> WKFields(deref(wellKnownConfigs)[u], WKDoc(u))
+//@   modifies mapof(deref(wellKnownConfigs)), ghost $held[wellKnownConfigsMu]
+//@   ensures  cache_ok: deref(wellKnownConfigs) != nil && forall u string :: mapHas(deref(wellKnownConfigs), u) ==> WKFields(deref(wellKnownConfigs)[u], WKDoc(u))
+//@   ensures  unlocked: !held(wellKnownConfigsMu)
+//@   ensures  discovered: err == nil ==> WKFields(result, WKDoc(url))
